@@ -109,7 +109,6 @@ type veEnv struct {
 	failedSeen        map[string]bool
 	freezeOnTxOf      string
 	recoveryOvercount int
-	asideSeq          int
 	jam               bool // the receiver refuses every request
 }
 
@@ -223,6 +222,8 @@ func (s *veStore) GetOpener() sts.Open {
 	}
 }
 
+var veAsideSeq int64
+
 type veAside struct {
 	sts.File
 	path string
@@ -237,11 +238,10 @@ func (s *veStore) Remove(f sts.File) error {
 	// version written by the scenario) is not this deletion's business - the
 	// wrapper must not stretch the microseconds between the sender's look at the
 	// file and its removal into the milliseconds this bookkeeping takes.
-	s.e.mu.Lock()
-	s.e.asideSeq++
-	aside := filepath.Join(s.e.root, "aside", fmt.Sprintf("%d-%s", s.e.asideSeq, strings.ReplaceAll(f.GetName(), "/", "_")))
-	s.e.mu.Unlock()
-	os.MkdirAll(filepath.Dir(aside), 0o755) // (outside the watched tree: a scan must not find it)
+	// (the rename is the first thing that happens here - no lock, no directory creation before it: the
+	// sender has just looked at the file, and every microsecond added between that look and the removal
+	// widens a window in which the scenario may put a new version under the name)
+	aside := filepath.Join(s.e.root, "aside", fmt.Sprintf("%d-%s", atomic.AddInt64(&veAsideSeq, 1), strings.ReplaceAll(f.GetName(), "/", "_")))
 	rerr := os.Rename(f.GetPath(), aside)
 	h := ""
 	held := false
@@ -621,6 +621,7 @@ type veScenario struct {
 	ignore            string
 	hidden            bool
 	minAge            time.Duration
+	delDelay          time.Duration // delete-delay of the tag (a confirmed file is deleted once it is this old)
 }
 
 func veContent(f veFileSpec, version int) []byte {
@@ -681,7 +682,7 @@ func (e *veEnv) newBroker(sc veScenario) (*Broker, *veStore) {
 		CacheAge: time.Hour, ScanDelay: veScanDelay(sc), Threads: sc.threads,
 		PayloadSize: units.Base2Bytes(sc.payload), StatInterval: time.Hour,
 		PollDelay: 5 * time.Millisecond, PollInterval: 10 * time.Millisecond, PollAttempts: 3, PollMaxCount: vePollMax(sc),
-		Tags: []*FileTag{{Name: "", InOrder: true, Delete: sc.del}}, ErrorBackoff: 0,
+		Tags: []*FileTag{{Name: "", InOrder: true, Delete: sc.del, DeleteDelay: sc.delDelay}}, ErrorBackoff: 0,
 	}}
 	return b, ws
 }
@@ -763,6 +764,7 @@ func veRun(tmp string, sc veScenario) string {
 		}
 		return "v?"
 	}
+	os.MkdirAll(filepath.Join(e.root, "aside"), 0o755) // where deleted files are moved at the instant of deletion (outside the watched tree)
 	e.rlog = log.NewFileIO(e.logIn, nil, nil, false)
 	e.st = stage.New("src", e.stageDir, e.finalDir, e.rlog, nil, nil)
 	if sc.crashAt > 0 {
@@ -874,12 +876,12 @@ func veRun(tmp string, sc veScenario) string {
 					}
 					if b, err := os.ReadFile(filepath.Join(e.finalDir, f.name)); err == nil && veMD5(b) == veMD5(veContent(f, 0)) {
 						// "created anew under a name used before": after the sender released the old one
-						if sc.del {
+						if sc.del && sc.delDelay == 0 {
 							if _, err := os.Stat(filepath.Join(e.out, f.name)); err == nil {
 								continue
 							}
 						} else if c := b0.Conf.Cache.Get(f.name); c == nil || !c.IsDone() {
-							continue
+							continue // (with a delete delay: written while the confirmed version still waits to be deleted)
 						}
 						if sc.reuseCrash {
 							e.mu.Lock()
@@ -1197,10 +1199,10 @@ func veRun(tmp string, sc veScenario) string {
 			nlinks++
 		}
 	}
-	fmt.Fprintf(&sb, "E %s %s files=%d links=%d del=%v threads=%d payload=%d chunk=%d faults=%d pollfaults=%d stop=%s stopat=%d crashat=%d reuse=%v reusefault=%s reusecrash=%v mutate=%s =",
+	fmt.Fprintf(&sb, "E %s %s files=%d links=%d del=%v threads=%d payload=%d chunk=%d faults=%d pollfaults=%d stop=%s stopat=%d crashat=%d reuse=%v reusefault=%s reusecrash=%v deldelay=%d mutate=%s =",
 		sc.id, sc.profile, len(sc.files), nlinks, sc.del, sc.threads, sc.payload, sc.chunk, len(sc.faults), len(sc.pollFault),
 		map[bool]string{true: "-", false: sc.stopKind}[sc.stopKind == ""], sc.stopAt, sc.crashAt, sc.reuse,
-		map[bool]string{true: "-", false: sc.reuseFault}[sc.reuseFault == ""], sc.reuseCrash,
+		map[bool]string{true: "-", false: sc.reuseFault}[sc.reuseFault == ""], sc.reuseCrash, sc.delDelay/time.Millisecond,
 		map[bool]string{true: "-", false: sc.mutate}[sc.mutate == ""])
 	for _, k := range keys {
 		fmt.Fprintf(&sb, " %s=%s", k, facts[k])
@@ -1363,6 +1365,15 @@ func veGen(r *gen.Rand, id string, profile string) veScenario {
 		if r.Chance(1, 4) {
 			sc.reuseCrash = true
 			sc.crashAt = 100000 // armed
+		} else if r.Chance(1, 3) {
+			// delayed deletion: a confirmed file is kept until it is 8 s old; the new content is written
+			// under its name while it waits, and stays invisible to the scan (too young) for 4 s
+			sc.del = true
+			sc.delDelay = 8 * time.Second
+			sc.minAge = 4 * time.Second
+			for i := range sc.files {
+				sc.files[i].age = 4200 * time.Millisecond
+			}
 		} else if r.Chance(1, 2) {
 			sc.reuseFault = []string{"cutbefore", "unavail", "lost", "cutafter", "swallow"}[r.Intn(5)]
 			sc.reuseFaultN = 1 + r.Intn(2)
@@ -1432,6 +1443,20 @@ func TestVerifE2E(t *testing.T) {
 		for c := 0; c < N; c++ {
 			scs = append(scs, veGen(root.Sub(uint64(pi*100000+c)), fmt.Sprintf("%s%d", p, c), p))
 		}
+	}
+	if only := os.Getenv("VERIF_E2E_ONLY"); only != "" {
+		// confirmation run: the same scenarios (same derivation), but only the named ones are played
+		want := map[string]bool{}
+		for _, id := range strings.Split(only, ",") {
+			want[id] = true
+		}
+		var keep []veScenario
+		for _, sc := range scs {
+			if want[sc.id] {
+				keep = append(keep, sc)
+			}
+		}
+		scs = keep
 	}
 	out := make([]string, len(scs))
 	var wg sync.WaitGroup
